@@ -140,6 +140,24 @@ fn tries() {
     for a in [Some(String::from("a")), None] { for b in [Some(String::from("b")), None] { chk!("try_opt!(two)", k_try_opt2(a.clone(), b.clone()), s_try_opt2(a.clone(), b)); } }
 }
 
+// ---- rebind patterns whose targets depend on each other: components are assigned first to last
+fn dependent_targets() {
+    fn k1() -> Result<u32, u8> { let mut x = 0u32; konst::try_rebind!{(x, x) = Ok::<(u32, u32), u8>((1, 2))}; Ok(x) }
+    chk!("try_rebind!((x, x)): the later component wins", k1(), Ok::<u32, u8>(2));
+    fn k2() -> Result<[u8; 4], u8> { let mut arr = [0u8; 4]; let mut i = 0usize; konst::try_rebind!{(i, arr[i], let tail) = Ok::<(usize, u8, u8), u8>((2, 9, 7))}; arr[3] = tail; Ok(arr) }
+    chk!("try_rebind!((i, arr[i], let tail)): the index assigned first is used", k2(), Ok::<[u8; 4], u8>([0, 0, 9, 7]));
+    fn k3() -> ([u32; 3], u32) {
+        let mut arr = [0u32; 3]; let k = 0usize; let mut last = 0u32;
+        konst::rebind_if_ok!{(let k, arr[k], let k, arr[k], let k, last) = Ok::<(usize, u32, usize, u32, usize, u32), u8>((1, 10, 2, 20, 0, 30)) => arr[k] += last;}
+        (arr, last)
+    }
+    chk!("rebind_if_ok!(shadowing lets between indexed places)", k3(), ([30u32, 10, 20], 30u32));
+    fn k4() -> Result<(u8, u8), u8> { let mut p = (0u8, 0u8); konst::try_rebind!{(p.0, p.1, p.0) = Ok::<(u8, u8, u8), u8>((1, 2, 3))}; Ok(p) }
+    chk!("try_rebind!((p.0, p.1, p.0))", k4(), Ok::<(u8, u8), u8>((3, 2)));
+    fn k5() -> Result<u64, u8> { let mut x = 0u64; konst::try_rebind!{(x, _, x, _, x, x) = Ok::<(u64, u64, u64, u64, u64, u64), u8>((1, 2, 3, 4, 5, 6))}; Ok(x) }
+    chk!("try_rebind!((x, _, x, _, x, x))", k5(), Ok::<u64, u8>(6));
+}
+
 // ---- min / max with distinguishable identity
 #[derive(Debug, Clone, Copy, PartialEq, Eq)]
 struct Keyed { key: u8, id: u8 }
@@ -314,7 +332,7 @@ def run(out, tier, seed):
         text = STATIC + REBIND_PRELUDE + "".join(tuple_src(k) for k in range(1, 7)) + "".join(fns)
         text += "fn main() {\n    std::panic::set_hook(Box::new(|_| {}));\n"
         if bi == 0:
-            text += "    options_and_results();\n    tries();\n    minmax();\n"
+            text += "    options_and_results();\n    tries();\n    dependent_targets();\n    minmax();\n"
         text += "".join(calls)
         text += "    println!(\"N\\t{}\", unsafe { EVALS });\n}\n"
         srcs.append(cx.write("c19_%03d.rs" % bi, text))
